@@ -1182,12 +1182,13 @@ sexp sexp_complex_atan (sexp ctx, sexp z) {
   sexp_gc_var3(res, tmp1, tmp2);
   sexp_gc_preserve3(ctx, res, tmp1, tmp2);
   tmp1 = sexp_make_complex(ctx, SEXP_ZERO, SEXP_ONE);
+  /* products and sums of complex numbers may normalize to reals */
   tmp1 = sexp_complex_mul(ctx, z, tmp1);
-  res = sexp_make_complex(ctx, SEXP_ONE, SEXP_ZERO);
-  res = sexp_complex_sub(ctx, res, tmp1);
+  res = sexp_sub(ctx, SEXP_ONE, tmp1);
+  res = sexp_to_complex(ctx, res);
   res = sexp_complex_log(ctx, res);
-  tmp2 = sexp_make_complex(ctx, SEXP_ONE, SEXP_ZERO);
-  tmp2 = sexp_complex_add(ctx, tmp2, tmp1);
+  tmp2 = sexp_add(ctx, SEXP_ONE, tmp1);
+  tmp2 = sexp_to_complex(ctx, tmp2);
   tmp2 = sexp_complex_log(ctx, tmp2);
   res = sexp_complex_sub(ctx, res, tmp2);
   tmp1 = sexp_make_complex(ctx, SEXP_ZERO, SEXP_ONE);
